@@ -37,6 +37,23 @@ def sig_c20(f):
     srv = st.get("server", "?")
     generic = "%s:server=%s:flags=%s:pre=%s:exit=%s:ran=%s:post=%s" % (
         k, srv, _flags(st), _cache(ob.get("pre")), ob.get("exit"), ob.get("ran"), _cache(ob.get("post")))
+    pre, post, ran = ob.get("pre") or {}, ob.get("post") or {}, ob.get("ran") or []
+    if k in ("R_only_approved", "R_ran_approved") and ran and any(v != pre.get("sum") for v in ran) \
+            and pre.get("content") in ran and post == pre:
+        # bytes sitting in the cache whose checksum is not the approved one were executed without a
+        # download in this invocation (the cache-reading paths never consult .checksum)
+        if st.get("offline"):
+            mode = "offline"
+        elif srv in ("down", "refuse", "slow"):
+            mode = "fallback"
+        else:
+            mode = "fresh-cache"
+        rec = "nothing-approved" if pre.get("sum") is None else "other-version-approved"
+        return "unapproved-cached-content-ran:%s:%s" % (mode, rec)
+    if k in ("R_guarded", "R_unapproved") and ob.get("exit") == 104 and ran == [] and post.get("content") != pre.get("content") \
+            and post.get("sum") == pre.get("sum"):
+        # a declined (104) invocation left the offered, unapproved bytes in <key>.yaml
+        return "declined-run-stored-content:exit=104"
     if k == "R_keeps":
         # 7.33: the connection fails outright (no HTTP answer), an approved copy is cached, the
         # invocation is not --offline; the code gives up with 103 instead of using the copy
@@ -50,9 +67,12 @@ def sig_c20(f):
 PROPS = {
     "C20": dict(
         src="Properties/C20.v", target="Properties/C20.vo",
-        support=["Remote/Model.vo", "Remote/Proofs.vo", "Remote/ProofsTie.vo"], run_targets=["Run/RemoteCases.vo"],
+        # support must NOT contain anything that depends on the extracted facts being what the proofs expect
+        # (Remote/ProofsTie.vo): vcheck runs the harness only when support builds, and a broken tie is exactly
+        # the situation in which a concrete failing history has to be searched for.
+        support=["Remote/Model.vo"], run_targets=["Run/RemoteCases.vo"],
         drivers=[dict(name="remote", n_quick=480, n_thorough=2400, shard=120, extra="enum_shards=20",
-                      results={"R_agree": "agree", "R_only_approved": "mon", "R_unapproved": "mon",
+                      results={"R_agree": "agree", "R_only_approved": "mon", "R_ran_approved": "mon", "R_guarded": "mon", "R_unapproved": "mon",
                                "R_keeps": "mon", "R_http": "mon"})],
         signature=sig_c20,
         rule="case = one history (<= 4 invocations) of (server state, CLI flags) run with the real task binary against a local scripted "
@@ -60,7 +80,11 @@ PROPS = {
              "include or -t URL; prompts answered on a pty (y/n) or refused for lack of a terminal, or --yes; time passing = the stored "
              "fetch time moved back. Per invocation: exit status, which version's probe appended to the trace file, the three cache files. "
              "agree: the Coq model started from the observed cache state predicts exit, probes and cache after the step; "
-             "mon: the four C20 monitors of Remote/Model.v on the observed step. thorough adds all histories of length <= 3 over "
+             "mon: the C20 monitors of Remote/Model.v on the observed step (only_approved: what ran has the checksum on record, the record changes only with approval; "
+             "ran_approved: what ran is among the versions the user approved so far in that history, computed from the inputs alone; guarded: the cached bytes change only "
+             "to approved/unchanged offered content and stay consistent with the checksum; unapproved: 104, nothing ran, cache untouched; keeps: cache keeps running; http refused). "
+             "every shard first runs directed histories: the reproducers, and (approve v1 | nothing) -> unapproved v2 (no terminal / n / --download) -> each cache-reading mode "
+             "(--offline, TASK_OFFLINE, fresh under --expiry, server down / refusing / slower than --timeout) -> --offline. thorough adds all histories of length <= 3 over "
              "5 server states x 6 flag sets (and length <= 2 after an approved download). "
              "non-trivial = --insecure given (the remote code is reached); distinct = distinct (via, cache class, server, flags, outcome) tuples",
         assumptions=["sha256 is injective on the contents involved (digest oracle of the theorems)",
